@@ -21,6 +21,8 @@ def run(ctx):
             runs = r["runs"]
             ctx.cov["cases"] = r["cases"]
             continue
+        if r["kind"] == "obs":
+            continue
         if r["kind"] == "harness":
             raise vlib.Inconclusive(r["what"])
         c = r["case"]
